@@ -601,6 +601,840 @@ def gen_functional(repo: Path, notes: list) -> str:
     return "\n".join(out)
 
 
+
+# -------------------------------------------------------------------------------------------------------------
+# object code: methods that read attributes of `self` / `options`, call user callables, assign to `self`
+#   -> Lean `do` blocks over `Utv.Obj.OVal` (lean/Utv/GenEq/Support.lean)
+# -------------------------------------------------------------------------------------------------------------
+
+OBJ_CLASS_NAMES = {"bool", "int", "str", "list", "tuple", "set", "frozenset", "dict", "Options", "RuntimeContext"}
+OBJ_EXC_BUILTIN = {"TypeError", "ValueError", "KeyError", "IndexError", "AttributeError", "Exception"}
+
+
+class Sibling:
+    """another translated function of the same output file"""
+
+    def __init__(self, py_name, lean_name, kind, n_args, is_property=False):
+        self.py_name, self.lean_name, self.kind, self.n_args, self.is_property = py_name, lean_name, kind, n_args, is_property
+
+
+class ObjTranslator:
+    """One Python function/method -> one Lean `def` over `OVal V` in the monad `M V`.
+
+    kind = "pure":  `def f (W : World V) (self_ …args : OVal V) : M V (OVal V)`
+    kind = "mut":   the method assigns to `self`:  `… : M V (OVal V × Outcome V)`; the receiver travels with the outcome
+                    (`return x` -> `(self_, .ret x)`, `raise X(…)` -> `(self_, .raise X)`)
+    """
+
+    def __init__(self, fn, *, src_file, lean_name, kind, siblings, externals=(), ignored_calls=(), params=None,
+                 has_self=True, stop_before=None, result_locals=None, doc="", method_externals=(), consts=None):
+        self.fn, self.src_file, self.lean_name, self.kind = fn, src_file, lean_name, kind
+        self.siblings: dict[str, Sibling] = siblings
+        self.externals, self.ignored_calls = set(externals), set(ignored_calls)
+        self.method_externals = set(method_externals)
+        self.consts = dict(consts or {})
+        self.has_self = has_self
+        self.params = params
+        self.stop_before = stop_before          # predicate on a statement: translation ends before it
+        self.result_locals = result_locals      # names returned as an `obj "locals"` when the cut is reached
+        self.doc = doc
+        self.declared: set[str] = set()
+        self.handler_vars: set[str] = set()
+        self.tmp = 0
+
+    def fail(self, node, why=""):
+        raise Untranslatable(f"{self.src_file}:{getattr(node, 'lineno', '?')} {type(node).__name__} {why}")
+
+    # ---- class expressions (isinstance second argument, except clauses) ----------------------------------------
+    def cls_name(self, e) -> str:
+        if isinstance(e, ast.Name) and e.id in OBJ_CLASS_NAMES | OBJ_EXC_BUILTIN:
+            return e.id
+        if isinstance(e, ast.Attribute) and isinstance(e.value, ast.Name) and e.value.id == "exc":
+            return e.attr
+        if isinstance(e, ast.Call) and isinstance(e.func, ast.Name) and e.func.id == "type" and len(e.args) == 1 and not e.keywords:
+            a = e.args[0]
+            if isinstance(a, ast.Constant) and a.value is None:
+                return "NoneType"
+            if isinstance(a, ast.Call) and isinstance(a.func, ast.Attribute) and isinstance(a.func.value, ast.Dict) \
+                    and not a.func.value.keys and not a.args and a.func.attr in ("values", "keys"):
+                return "dict_" + a.func.attr
+        self.fail(e, "class expression")
+
+    def cls_list(self, e) -> str:
+        names = [self.cls_name(x) for x in e.elts] if isinstance(e, ast.Tuple) else [self.cls_name(e)]
+        return "[" + ", ".join(json.dumps(n) for n in names) + "]"
+
+    # ---- expressions: (code, pure); pure code : OVal V, impure code : M V (OVal V) ------------------------------
+    def bind(self, cp):
+        code, pure = cp
+        return code if pure else f"(← {code})"
+
+    def atom(self, e) -> str:
+        return self.bind(self.val(e))
+
+    def args_list(self, args) -> str:
+        return "[" + ", ".join(self.atom(a) for a in args) + "]"
+
+    def is_self(self, e) -> bool:
+        return self.has_self and isinstance(e, ast.Name) and e.id == "self"
+
+    def val(self, e):
+        if isinstance(e, ast.Name):
+            if e.id == "unprovided":
+                return "OVal.unprovided", True
+            if e.id in self.declared or e.id in self.handler_vars:
+                if e.id in self.handler_vars:
+                    self.fail(e, "exception variable used as a value")
+                return lname(e.id), True
+            if e.id in self.consts:
+                # a module-level integer constant, inlined with the value it has in the source now
+                return f"(OVal.int ({self.consts[e.id]}))", True
+            self.fail(e, f"unknown name {e.id}")
+        if isinstance(e, ast.Constant):
+            v = e.value
+            if v is None:
+                return "OVal.none", True
+            if v is Ellipsis:
+                return "OVal.ellipsis", True
+            if v is True or v is False:
+                return f"(OVal.bool {'true' if v else 'false'})", True
+            if isinstance(v, int):
+                return f"(OVal.int ({v}))", True
+            if isinstance(v, str):
+                return f"(OVal.str {json.dumps(v)})", True
+            self.fail(e, "constant")
+        if isinstance(e, (ast.Set, ast.Tuple, ast.List)):
+            kind = {ast.Set: ".set", ast.Tuple: ".tuple", ast.List: ".list"}[type(e)]
+            return f"(OVal.seq {kind} [{', '.join(self.atom(x) for x in e.elts)}])", True
+        if isinstance(e, ast.Dict):
+            if any(k is None for k in e.keys):
+                self.fail(e, "dict unpacking")
+            items = ", ".join(f"({self.atom(k)}, {self.atom(v)})" for k, v in zip(e.keys, e.values))
+            return f"(OVal.dict [{items}])", True
+        if isinstance(e, ast.BinOp):
+            op = {ast.Sub: "sub", ast.Add: "concat"}.get(type(e.op))
+            if not op:
+                self.fail(e, "operator")
+            return f"{op} {self.atom(e.left)} {self.atom(e.right)}", False
+        if isinstance(e, ast.UnaryOp) and isinstance(e.op, ast.USub):
+            return f"neg {self.atom(e.operand)}", False
+        if isinstance(e, ast.BoolOp):
+            # value-level short circuit: `a or b` is a if a is true else b; `a and b` is a if a is false else b
+            parts = [f"(do pure {self.atom(v)})" for v in e.values]
+            acc = parts[-1]
+            for p in reversed(parts[:-1]):
+                if isinstance(e.op, ast.Or):
+                    acc = f"(do let x ← {p}; if (← truthy x) then pure x else {acc})"
+                else:
+                    acc = f"(do let x ← {p}; if (← truthy x) then {acc} else pure x)"
+            return acc, False
+        if isinstance(e, ast.Compare) or (isinstance(e, ast.UnaryOp) and isinstance(e.op, ast.Not)):
+            return f"(OVal.bool {self.cond(e)})", True
+        if isinstance(e, ast.IfExp):
+            return (f"(do if {self.cond(e.test)} then pure {self.atom(e.body)} else pure {self.atom(e.orelse)})"), False
+        if isinstance(e, ast.Subscript):
+            if isinstance(e.slice, ast.Slice):
+                self.fail(e, "slice")
+            return f"index {self.atom(e.value)} {self.atom(e.slice)}", False
+        if isinstance(e, ast.Attribute):
+            if self.is_self(e.value) and e.attr in self.siblings and self.siblings[e.attr].is_property:
+                sb = self.siblings[e.attr]
+                if sb.kind != "pure":
+                    self.fail(e, "property with effects")
+                return f"{sb.lean_name} W self_", False
+            return f"getattr {self.atom(e.value)} {json.dumps(e.attr)}", False
+        if isinstance(e, ast.Call):
+            return self.call(e)
+        self.fail(e)
+
+    def call(self, e: ast.Call):
+        f = e.func
+        if e.keywords or any(isinstance(a, ast.Starred) for a in e.args):
+            self.fail(e, "keyword/star arguments")
+        a = e.args
+        if isinstance(f, ast.Name):
+            n = f.id
+            if n in ("unprovided", "callable", "isinstance", "bool", "hasattr"):
+                return f"(OVal.bool {self.cond(e)})", True
+            if n == "len" and len(a) == 1:
+                return f"len {self.atom(a[0])}", False
+            if n == "list" and len(a) == 1:
+                return f"toList {self.atom(a[0])}", False
+            if n == "getattr" and len(a) == 2:
+                return f"getattrW W {self.atom(a[0])} {self.atom(a[1])}", False
+            if n in self.siblings and not self.siblings[n].is_property and self.siblings[n].kind == "fn":
+                sb = self.siblings[n]
+                if len(a) != sb.n_args:
+                    self.fail(e, "sibling arity")
+                return f"{sb.lean_name} W {' '.join(self.atom(x) for x in a)}", False
+            if n in self.externals:
+                return f"W.ext {json.dumps(n)} {self.args_list(a)}", False
+            if n in self.declared:
+                # calling a value held in a local / parameter
+                return f"W.call {lname(n)} {self.args_list(a)}", False
+            self.fail(e, f"call of {n}")
+        if isinstance(f, ast.Attribute):
+            if self.is_self(f.value) and f.attr in self.siblings and not self.siblings[f.attr].is_property:
+                sb = self.siblings[f.attr]
+                if sb.kind != "pure":
+                    self.fail(e, "call of a sibling with effects inside an expression")
+                if len(a) != sb.n_args:
+                    self.fail(e, "sibling arity")
+                return f"{sb.lean_name} W self_ {' '.join(self.atom(x) for x in a)}".rstrip(), False
+            if f.attr == "get" and len(a) == 1:
+                return f"dictGet {self.atom(f.value)} {self.atom(a[0])}", False
+            if f.attr in self.method_externals and not self.is_self(f.value):
+                # the same method on *another* instance (`self.base.resolve(t)`): not unfolded, the world answers
+                return f"W.ext {json.dumps(f.attr)} {self.args_list([f.value] + list(a))}", False
+            if f.attr in ("append", "extend", "clear", "sort", "pop", "update", "insert", "remove"):
+                self.fail(e, f"mutating method {f.attr} inside an expression")
+            if isinstance(f.value, ast.Name) and f.value.id in ("exc",):
+                self.fail(e, "exception constructor outside raise")
+            # calling the value of an attribute: self.no_input(value), self.default_factory(), self.validator(f)
+            return f"W.call {self.atom(f)} {self.args_list(a)}", False
+        self.fail(e, "call form")
+
+    # ---- conditions: Lean Bool code usable in a `do` block (may contain nested `(← …)`) -------------------------
+    def cond(self, e) -> str:
+        if isinstance(e, ast.UnaryOp) and isinstance(e.op, ast.Not):
+            return f"(!{self.cond(e.operand)})"
+        if isinstance(e, ast.BoolOp):
+            parts = [f"(do pure {self.cond(v)})" for v in e.values]
+            acc = parts[-1]
+            for p in reversed(parts[:-1]):
+                if isinstance(e.op, ast.Or):
+                    acc = f"(do if (← {p}) then pure true else {acc})"
+                else:
+                    acc = f"(do if (← {p}) then {acc} else pure false)"
+            return f"(← {acc})"
+        if isinstance(e, ast.Compare):
+            if len(e.ops) != 1:
+                self.fail(e, "chained comparison")
+            op, l, r = e.ops[0], e.left, e.comparators[0]
+            if isinstance(op, (ast.Is, ast.IsNot)):
+                neg = "!" if isinstance(op, ast.IsNot) else ""
+                if isinstance(r, ast.Constant) and (r.value is None or r.value is True or r.value is False or r.value is Ellipsis):
+                    t = {None: "isNone", True: "isTrue", False: "isFalse", Ellipsis: "isEllipsis"}[r.value]
+                    return f"({neg}(OVal.{t} {self.atom(l)}))"
+                self.fail(e, "identity test against a non-singleton")
+            m = {ast.Lt: "lt", ast.LtE: "le", ast.Gt: "gt", ast.GtE: "ge"}.get(type(op))
+            if m:
+                return f"(← {m} {self.atom(l)} {self.atom(r)})"
+            if isinstance(op, ast.Eq):
+                return f"(← eq {self.atom(l)} {self.atom(r)})"
+            if isinstance(op, ast.NotEq):
+                return f"(!(← eq {self.atom(l)} {self.atom(r)}))"
+            if isinstance(op, ast.In):
+                return f"(← contains {self.atom(r)} {self.atom(l)})"
+            if isinstance(op, ast.NotIn):
+                return f"(!(← contains {self.atom(r)} {self.atom(l)}))"
+            self.fail(e, "comparison operator")
+        if isinstance(e, ast.Call) and isinstance(e.func, ast.Name) and not e.keywords:
+            n, a = e.func.id, e.args
+            if n == "unprovided" and len(a) == 1:
+                return f"(OVal.isUnprovided {self.atom(a[0])})"
+            if n == "callable" and len(a) == 1:
+                return f"(← callable {self.atom(a[0])})"
+            if n == "isinstance" and len(a) == 2:
+                return f"(← isinstance {self.atom(a[0])} {self.cls_list(a[1])})"
+            if n == "bool" and len(a) == 1:
+                return f"(← truthy {self.atom(a[0])})"
+            if n == "hasattr" and len(a) == 2:
+                return f"(← hasattrW W {self.atom(a[0])} {self.atom(a[1])})"
+        return f"(← truthy {self.atom(e)})"
+
+    # ---- statements ------------------------------------------------------------------------------------------
+    def assign(self, name: str, cp, ind: str) -> str:
+        code, pure = cp
+        n = lname(name)
+        if name in self.declared:
+            return f"{ind}{n} := {code}" if pure else f"{ind}{n} ← {code}"
+        self.declared.add(name)
+        return f"{ind}let mut {n} := {code}" if pure else f"{ind}let mut {n} ← {code}"
+
+    def set_self_attr(self, attr: str, value_code: str, ind: str) -> str:
+        if self.kind != "mut":
+            raise Untranslatable(f"{self.src_file} assignment to self.{attr} in a function translated as pure")
+        return f"{ind}self_ ← setattr self_ {json.dumps(attr)} {value_code}"
+
+    def ret(self, code: str, ind: str) -> str:
+        if self.kind == "mut":
+            return f"{ind}return (self_, Outcome.ret {code})"
+        return f"{ind}return {code}"
+
+    def exc_obj(self, exc) -> str:
+        """`X(...)`, `exc.X(...)`, `X` as an exception object: class name + keyword arguments (messages are dropped)"""
+        if isinstance(exc, ast.Call):
+            name = self.cls_name(exc.func) if not (isinstance(exc.func, ast.Name) and exc.func.id not in OBJ_EXC_BUILTIN) else exc.func.id
+            for a in exc.args:
+                if not (isinstance(a, ast.JoinedStr) or (isinstance(a, ast.Constant) and isinstance(a.value, str))):
+                    self.fail(exc, "positional exception argument that is not a message")
+            kws = []
+            for k in exc.keywords:
+                if k.arg is None:
+                    self.fail(exc, "**kwargs in exception")
+                kws.append(f"({json.dumps(k.arg)}, {self.atom(k.value)})")
+            return f"(OVal.obj {json.dumps(name)} [{', '.join(kws)}])"
+        if isinstance(exc, (ast.Name, ast.Attribute)) and not (isinstance(exc, ast.Name) and exc.id in self.declared):
+            return f"(OVal.obj {json.dumps(self.cls_name(exc))} [])"
+        self.fail(exc, "raise form")
+
+    def predeclare(self, bodies, ind: str) -> list[str]:
+        pre = []
+        names = set()
+        for b in bodies:
+            names |= assigned_names_obj(b)
+        for nm in sorted(names):
+            if nm not in self.declared:
+                self.declared.add(nm)
+                pre.append(f"{ind}let mut {lname(nm)} := (OVal.none : OVal V)")
+        return pre
+
+    def stmts(self, body, ind: str) -> list[str]:
+        out = []
+        for s in body:
+            out += self.stmt(s, ind)
+        return out
+
+    def container_target(self, v):
+        """a local name or `self.attr` holding a container that a statement updates in place.
+        returns (read_code, write(new_code, ind) -> line)"""
+        if isinstance(v, ast.Name) and v.id in self.declared:
+            n = lname(v.id)
+            return n, (lambda code, ind: f"{ind}{n} ← {code}")
+        if isinstance(v, ast.Attribute) and self.is_self(v.value):
+            attr = v.attr
+            return f"(← getattr self_ {json.dumps(attr)})", (lambda code, ind: self.set_self_attr(attr, f"(← {code})", ind))
+        self.fail(v, "in-place update of something that is neither a local nor an attribute of self")
+
+    def stmt(self, s, ind: str) -> list[str]:
+        if isinstance(s, ast.Expr) and isinstance(s.value, ast.Constant) and isinstance(s.value.value, str):
+            return []
+        if isinstance(s, ast.Return):
+            if s.value is None:
+                return [self.ret("OVal.none", ind)]
+            return [self.ret(self.atom(s.value), ind)]
+        if isinstance(s, ast.Raise):
+            exc = s.exc
+            if exc is None:
+                self.fail(s, "bare raise")
+            # `raise e.__class__(msg) from e` inside `except … as e`: the same class again (messages are not modelled)
+            if isinstance(exc, ast.Call) and isinstance(exc.func, ast.Attribute) and exc.func.attr == "__class__" \
+                    and isinstance(exc.func.value, ast.Name) and exc.func.value.id in self.handler_vars:
+                return [f"{ind}throw {lname(exc.func.value.id)}"]
+            if isinstance(exc, ast.Name) and exc.id in self.handler_vars:
+                return [f"{ind}throw {lname(exc.id)}"]
+            if isinstance(exc, ast.Name) and exc.id in self.declared:
+                code = lname(exc.id)       # `raise e` for an exception object held in a parameter / local
+            else:
+                code = self.exc_obj(exc)
+            if self.kind == "mut":
+                return [f"{ind}return (self_, Outcome.raise {code})"]
+            return [f"{ind}throw (Exc.raised {code})"]
+        if isinstance(s, (ast.Assign, ast.AnnAssign)):
+            if isinstance(s, ast.AnnAssign):
+                if s.value is None:
+                    return []
+                targets, value = [s.target], s.value
+            else:
+                targets, value = s.targets, s.value
+            if len(targets) != 1:
+                self.fail(s, "multiple targets")
+            t = targets[0]
+            if isinstance(t, ast.Name):
+                return [self.assign(t.id, self.val(value), ind)]
+            if isinstance(t, ast.Attribute) and self.is_self(t.value):
+                return [self.set_self_attr(t.attr, self.atom(value), ind)]
+            if isinstance(t, ast.Subscript) and not isinstance(t.slice, ast.Slice):
+                read, write = self.container_target(t.value)
+                return [write(f"dictSet {read} {self.atom(t.slice)} {self.atom(value)}", ind)]
+            if isinstance(t, ast.Tuple) and all(isinstance(x, ast.Name) for x in t.elts) and len(t.elts) in (2, 3):
+                tmp = f"tup_{s.lineno}"
+                out = [f"{ind}let {tmp} ← unpack{len(t.elts)} {self.atom(value)}"]
+                proj = [".1", ".2"] if len(t.elts) == 2 else [".1", ".2.1", ".2.2"]
+                for x, pj in zip(t.elts, proj):
+                    out.append(self.assign(x.id, (tmp + pj, True), ind))
+                return out
+            self.fail(s, "assignment target")
+        if isinstance(s, ast.AugAssign):
+            op = {ast.Add: "concat", ast.Sub: "sub"}.get(type(s.op))
+            if not op:
+                self.fail(s, "augmented operator")
+            t = s.target
+            if isinstance(t, ast.Name) and t.id in self.declared:
+                return [f"{ind}{lname(t.id)} ← {op} {lname(t.id)} {self.atom(s.value)}"]
+            if isinstance(t, ast.Attribute) and self.is_self(t.value):
+                return [self.set_self_attr(t.attr, f"(← {op} (← getattr self_ {json.dumps(t.attr)}) {self.atom(s.value)})", ind)]
+            self.fail(s, "augmented target")
+        if isinstance(s, ast.If):
+            pre = self.predeclare([s.body, s.orelse], ind)
+            out = pre + [f"{ind}if {self.cond(s.test)} then"]
+            out += self.stmts(s.body, ind + "  ") or [f"{ind}  pure ()"]
+            if s.orelse:
+                out.append(f"{ind}else")
+                out += self.stmts(s.orelse, ind + "  ") or [f"{ind}  pure ()"]
+            return out
+        if isinstance(s, ast.For):
+            if s.orelse:
+                self.fail(s, "for-else")
+            pre = self.predeclare([s.body], ind)
+            it = f"(← iter {self.atom(s.iter)})"
+            if isinstance(s.target, ast.Name):
+                self.declared.add(s.target.id)
+                out = pre + [f"{ind}for {lname(s.target.id)} in {it} do"]
+            elif isinstance(s.target, ast.Tuple) and all(isinstance(x, ast.Name) for x in s.target.elts) and len(s.target.elts) in (2, 3):
+                tmp = f"item_{s.lineno}"
+                n = len(s.target.elts)
+                out = pre + [f"{ind}for {tmp} in {it} do", f"{ind}  let tup_{s.lineno} ← unpack{n} {tmp}"]
+                proj = [".1", ".2"] if n == 2 else [".1", ".2.1", ".2.2"]
+                for x, pj in zip(s.target.elts, proj):
+                    self.declared.add(x.id)
+                    out.append(f"{ind}  let {lname(x.id)} := tup_{s.lineno}{pj}")
+            else:
+                self.fail(s, "for target")
+            out += self.stmts(s.body, ind + "  ")
+            return out
+        if isinstance(s, ast.Continue):
+            return [f"{ind}continue"]
+        if isinstance(s, ast.Pass):
+            return [f"{ind}pure ()"]
+        if isinstance(s, ast.With):
+            # `with self._lock:` — the lock is not modelled (sequential semantics): the body runs as it is
+            for item in s.items:
+                if item.optional_vars is not None:
+                    self.fail(s, "with … as")
+                ce = item.context_expr
+                if not (isinstance(ce, ast.Attribute) and self.is_self(ce.value) and "lock" in ce.attr):
+                    self.fail(s, "with on something that is not a lock of self")
+            return [f"{ind}-- with {ast.unparse(s.items[0].context_expr)}: (lock not modelled)"] + self.stmts(s.body, ind)
+        if isinstance(s, ast.Try):
+            if s.orelse or s.finalbody or len(s.handlers) != 1:
+                self.fail(s, "try form")
+            h = s.handlers[0]
+            if h.type is None:
+                self.fail(s, "bare except")
+            classes = self.cls_list(h.type)
+            pre = self.predeclare([s.body, h.body], ind)
+            ev = lname(h.name) if h.name else f"exc_{s.lineno}"
+            out = pre + [f"{ind}try"]
+            out += self.stmts(s.body, ind + "  ")
+            out.append(f"{ind}catch {ev} =>")
+            out.append(f"{ind}  if Exc.isA {ev} {classes} then")
+            if h.name:
+                self.handler_vars.add(h.name)
+            out += self.stmts(h.body, ind + "    ") or [f"{ind}    pure ()"]
+            if h.name:
+                self.handler_vars.discard(h.name)
+            out.append(f"{ind}  else")
+            out.append(f"{ind}    throw {ev}")
+            return out
+        if isinstance(s, ast.Expr) and isinstance(s.value, ast.Call):
+            c = s.value
+            if ast.unparse(c.func) in self.ignored_calls:
+                return [f"{ind}-- {ast.unparse(c.func)}(…): no effect on the modelled state", f"{ind}pure ()"]
+            if isinstance(c.func, ast.Attribute) and not c.keywords:
+                m, a = c.func.attr, c.args
+                if m in ("append", "extend") and len(a) == 1:
+                    read, write = self.container_target(c.func.value)
+                    return [write(f"{m} {read} {self.atom(a[0])}", ind)]
+                if m == "clear" and not a:
+                    read, write = self.container_target(c.func.value)
+                    return [write(f"dictClear {read}", ind)]
+            if isinstance(c.func, ast.Attribute) and c.func.attr == "sort" and not c.args and len(c.keywords) == 1 \
+                    and c.keywords[0].arg == "key" and isinstance(c.keywords[0].value, ast.Lambda):
+                lam = c.keywords[0].value
+                if len(lam.args.args) != 1 or lam.args.defaults or lam.args.vararg or lam.args.kwarg:
+                    self.fail(s, "sort key lambda")
+                v = lam.args.args[0].arg
+                was = v in self.declared
+                self.declared.add(v)
+                body = self.atom(lam.body)
+                if not was:
+                    self.declared.discard(v)
+                read, write = self.container_target(c.func.value)
+                return [write(f"sortByKey (fun {lname(v)} => do pure {body}) {read}", ind)]
+        self.fail(s)
+
+    def translate(self) -> str:
+        a = self.fn.args
+        if a.vararg or a.kwarg or a.posonlyargs:
+            self.fail(self.fn, "signature")
+        names = [x.arg for x in a.args if not (self.has_self and x.arg == "self")]
+        kwonly = [x.arg for x in a.kwonlyargs]
+        extra = list(self.params or [])
+        ret_t = "M V (OVal V × Outcome V)" if self.kind == "mut" else "M V (OVal V)"
+        lean_params = (["self_"] if self.has_self else []) + [lname(x) for x in extra + names]
+        kw_param = " (kw_ : List (String × OVal V))" if kwonly else ""
+        head = (f"def {self.lean_name} (W : World V) " + " ".join(f"({p} : OVal V)" for p in lean_params) + kw_param +
+                f" : {ret_t} := do")
+        lines = [f"/-- {self.src_file}:{self.fn.lineno} `{self.fn.name}`{self.doc} -/", head, "  let _ := W"]
+        reassigned = assigned_names_obj(self.fn.body)
+        if self.has_self:
+            self.declared.add("self")
+        if self.kind == "mut":
+            lines.append("  let mut self_ := self_")
+        for x in extra + names:
+            self.declared.add(x)
+            if x in reassigned:
+                lines.append(f"  let mut {lname(x)} := {lname(x)}")
+        # keyword-only parameters arrive as a record; an absent one takes the default written in the signature
+        for x, d in zip(kwonly, a.kw_defaults):
+            if d is None:
+                self.fail(self.fn, f"keyword-only parameter {x} without default")
+            lines.append(f"  let mut {lname(x)} := (lookupAttr {json.dumps(x)} kw_).getD {self.atom(d)}")
+            self.declared.add(x)
+        body = list(self.fn.body)
+        cut = False
+        if self.stop_before is not None:
+            for i, st in enumerate(body):
+                if self.stop_before(st):
+                    body, cut = body[:i], True
+                    break
+            if not cut:
+                self.fail(self.fn, "the statement that ends the translated part was not found")
+        lines += self.stmts(body, "  ")
+        if cut:
+            res = self.result_locals if self.result_locals is not None else (names + kwonly)
+            items = ", ".join(f"({json.dumps(x)}, {lname(x)})" for x in res)
+            lines.append(self.ret(f"(OVal.obj \"locals\" [{items}])", "  "))
+        elif not body or not isinstance(body[-1], (ast.Return, ast.Raise)):
+            lines.append(self.ret("OVal.none", "  "))
+        return "\n".join(lines)
+
+
+def assigned_names_obj(body) -> set[str]:
+    out = set()
+    for node in body:
+        for n in ast.walk(node):
+            if isinstance(n, (ast.Assign, ast.AnnAssign, ast.AugAssign)):
+                targets = n.targets if isinstance(n, ast.Assign) else [n.target]
+                for t in targets:
+                    if isinstance(t, ast.Name):
+                        out.add(t.id)
+                    elif isinstance(t, ast.Tuple):
+                        out |= {x.id for x in t.elts if isinstance(x, ast.Name)}
+            elif isinstance(n, ast.Expr) and isinstance(n.value, ast.Call) and isinstance(n.value.func, ast.Attribute) \
+                    and n.value.func.attr in ("append", "extend", "clear", "sort") and isinstance(n.value.func.value, ast.Name):
+                out.add(n.value.func.value.id)
+    return out
+
+
+def find_class(tree, name):
+    return next((n for n in tree.body if isinstance(n, ast.ClassDef) and n.name == name), None)
+
+
+def find_method(cls, name):
+    return next((n for n in (cls.body if cls else []) if isinstance(n, ast.FunctionDef) and n.name == name), None)
+
+
+def is_property(fn) -> bool:
+    return any(isinstance(d, ast.Name) and d.id in ("property", "cached_property") for d in fn.decorator_list)
+
+
+def obj_file_header(title: str, ns: str) -> list[str]:
+    return ["import Utv.GenEq.Support", f"/-! GENERATED by tools/extract.py from {title} — do not edit. -/",
+            "set_option linter.unusedVariables false", f"namespace Utv.Gen.{ns}", "open Utv.Obj", "variable {V : Type}", ""]
+
+
+def stub(lean_name: str, kind: str, n_params: int, why: str, kw=False) -> str:
+    ret_t = "M V (OVal V × Outcome V)" if kind == "mut" else "M V (OVal V)"
+    params = " ".join(f"(a{i}_ : OVal V)" for i in range(n_params))
+    kwp = " (kw_ : List (String × OVal V))" if kw else ""
+    return f"def {lean_name} (W : World V) {params}{kwp} : {ret_t} := throw (.unmodelled {json.dumps('untranslatable ' + why)})\n"
+
+
+def check_unprovided(repo: Path, notes: list):
+    """the translator reads `unprovided(x)` as `isinstance(x, Unprovided)` and `bool(unprovided)` as False:
+    check that datastructures.py still says so"""
+    src_file = "utype/utils/datastructures.py"
+    try:
+        tree = ast.parse((repo / src_file).read_text())
+        cls = find_class(tree, "Unprovided")
+        call, bl = find_method(cls, "__call__"), find_method(cls, "__bool__")
+        ok = (call is not None and len(call.body) == 1 and isinstance(call.body[0], ast.Return)
+              and ast.unparse(call.body[0].value) == f"isinstance({call.args.args[1].arg}, Unprovided)"
+              and bl is not None and len(bl.body) == 1 and ast.unparse(bl.body[0]) == "return False"
+              and any(isinstance(n, ast.Assign) and ast.unparse(n) == "unprovided = Unprovided()" for n in tree.body))
+    except Exception:
+        ok = False
+    if not ok:
+        notes.append(f"untranslatable {src_file} Unprovided.__call__/__bool__ are not the modelled ones")
+    return ok
+
+
+FIELD_FUNCS = ["no_default", "always_provided", "is_case_insensitive", "get_default", "get_on_error", "always_no_input",
+               "is_required", "is_no_input", "always_no_output", "is_no_output"]
+
+
+def gen_group(repo: Path, notes: list, *, src_file: str, cls_name: str | None, funcs: list, ns: str, title: str,
+              externals=(), ignored_calls=(), module_funcs: dict | None = None, gate_ok=True) -> str:
+    """funcs: list of dicts {py, lean?, kind, ...}; translated in the given order (callees first)."""
+    tree = ast.parse((repo / src_file).read_text())
+    cls = find_class(tree, cls_name) if cls_name else None
+    out = obj_file_header(title, ns)
+    siblings: dict[str, Sibling] = {}
+    for spec in funcs:
+        py, kind = spec["py"], spec.get("kind", "pure")
+        lean = spec.get("lean", py)
+        fn = spec["find"](tree, cls) if "find" in spec else find_method(cls, py)
+        n_extra = len(spec.get("params", []))
+        if fn is None:
+            notes.append(f"untranslatable {src_file} {cls_name or ''}.{py} (not found)")
+            out.append(stub(lean, kind, spec.get("arity", 1), f"{py} (not found)", kw=spec.get("kw", False)))
+            continue
+        has_self = spec.get("has_self", cls is not None)
+        n_args = len([a for a in fn.args.args if not (has_self and a.arg == "self")])
+        try:
+            if not gate_ok:
+                raise Untranslatable(f"{src_file} {py}: a definition the translation relies on changed (see above)")
+            tr = ObjTranslator(fn, src_file=spec.get("src_file", src_file), lean_name=lean, kind=kind, siblings=dict(siblings),
+                               externals=externals, ignored_calls=ignored_calls, params=spec.get("params"),
+                               has_self=has_self, stop_before=spec.get("stop_before"),
+                               result_locals=spec.get("result_locals"), doc=spec.get("doc", ""),
+                               method_externals=spec.get("method_externals", ()), consts=spec.get("consts"))
+            out.append(tr.translate() + "\n")
+        except Untranslatable as e:
+            notes.append(f"untranslatable {e} ({cls_name or ns}.{py})")
+            out.append(stub(lean, kind, n_args + n_extra + (1 if has_self else 0), py, kw=bool(fn.args.kwonlyargs)))
+        siblings[py] = Sibling(py, lean, kind if has_self else "fn", n_args, is_property(fn))
+    out += [f"end Utv.Gen.{ns}", ""]
+    return "\n".join(out)
+
+
+def _find_module_func(repo: Path, rel: str, name: str):
+    def find(_tree, _cls):
+        try:
+            tree = ast.parse((repo / rel).read_text())
+        except Exception:
+            return None
+        return next((n for n in tree.body if isinstance(n, ast.FunctionDef) and n.name == name), None)
+    return find
+
+
+def _is_options_dict_start(st) -> bool:
+    """`options = {}` — where `Options.__init__` stops normalising its arguments and starts storing them"""
+    return (isinstance(st, ast.Assign) and len(st.targets) == 1 and isinstance(st.targets[0], ast.Name)
+            and st.targets[0].id == "options" and isinstance(st.value, ast.Dict) and not st.value.keys)
+
+
+def gen_options(repo: Path, notes: list, gate_ok: bool) -> str:
+    """Gen/Options.lean: the normalising part of `Options.__init__` (result: the locals as a record), and the
+    `RuntimeContext` methods that account for depth / routes and collect errors"""
+    src = "utype/parser/options.py"
+    tree = ast.parse((repo / src).read_text())
+    out = obj_file_header("utype/parser/options.py (Options.__init__ normalisation; RuntimeContext)", "Options")
+    body = []
+    # --- Options
+    part = gen_group(
+        repo, notes, src_file=src, cls_name="Options", ns="Options", title="",
+        funcs=[
+            {"py": "multi", "find": _find_module_func(repo, "utype/utils/functional.py", "multi"), "has_self": False,
+             "src_file": "utype/utils/functional.py", "arity": 1},
+            {"py": "__init__", "lean": "Options_init", "stop_before": _is_options_dict_start, "kw": True, "arity": 1,
+             "doc": " up to (not including) `options = {}`: the keyword arguments after normalisation, as a record"},
+        ],
+        ignored_calls={"warning_settings.warn"}, gate_ok=gate_ok)
+    body += _group_body(part)
+    # --- RuntimeContext
+    part = gen_group(
+        repo, notes, src_file=src, cls_name="RuntimeContext", ns="Options", title="",
+        funcs=[
+            {"py": "__init__", "lean": "RuntimeContext_init", "kind": "mut", "arity": 7},
+            {"py": "raise_error", "kind": "mut", "arity": 1},
+            {"py": "collect_tmp_error", "kind": "mut", "arity": 2},
+            {"py": "clear_tmp_error", "kind": "mut", "arity": 1},
+            {"py": "handle_error", "kind": "mut", "arity": 3},
+        ],
+        externals={"Options"}, gate_ok=gate_ok)
+    body += _group_body(part)
+    return "\n".join(out + body + ["end Utv.Gen.Options", ""])
+
+
+def _group_body(text: str) -> list[str]:
+    """the definitions of a `gen_group` output, without its header and `end` line"""
+    lines = text.split("\n")
+    start = next(i for i, l in enumerate(lines) if l.startswith("variable {V : Type}")) + 2
+    end = max(i for i, l in enumerate(lines) if l.startswith("end Utv.Gen."))
+    return lines[start:end]
+
+
+def _find_nested(outer: str, inner: str):
+    def find(_tree, cls):
+        o = find_method(cls, outer)
+        return next((n for n in (o.body if o else []) if isinstance(n, ast.FunctionDef) and n.name == inner), None)
+    return find
+
+
+def gen_registry(repo: Path, notes: list, gate_ok: bool) -> str:
+    """Gen/Registry.lean: `TypeRegistry.register`'s inner `decorator(f)` (insert + stable sort + cache drop +
+    generation; the closure variables `detector`, `priority` become parameters) and `resolve`"""
+    return gen_group(
+        repo, notes, src_file="utype/utils/base.py", cls_name="TypeRegistry", ns="Registry",
+        title="utype/utils/base.py (class TypeRegistry: register's decorator, resolve)",
+        funcs=[
+            {"py": "decorator", "lean": "register_decorator", "find": _find_nested("register", "decorator"), "kind": "mut",
+             "params": ["detector", "priority"], "has_self": True, "arity": 4,
+             "doc": " (inner function of `register`; closure variables `detector`, `priority` are parameters)"},
+            {"py": "resolve", "kind": "mut", "arity": 2, "method_externals": {"resolve"}},
+        ], gate_ok=gate_ok)
+
+
+# -------------------------------------------------------------------------------------------------------------
+# more tables: specs/json_schema/constant.py, the format lists of transform.py, the safe-number bounds of encode.py
+# -------------------------------------------------------------------------------------------------------------
+
+def lean_pairs(ps) -> str:
+    return "[" + ", ".join(f"({json.dumps(a)}, {json.dumps(b)})" for a, b in ps) + "]"
+
+
+def gen_json_tables(repo: Path, notes: list) -> str:
+    """Gen/JsonTables.lean — every map of specs/json_schema/constant.py as data.  A key / value that is a string
+    literal is that string; anything else (a class expression such as `type(None)`, `(float, Decimal)`) is its source
+    text (`ast.unparse`).  `**OTHER` and a bare name as a value are expanded from the module's own assignments."""
+    src_file = "utype/specs/json_schema/constant.py"
+    out = ["/-! GENERATED by tools/extract.py from utype/specs/json_schema/constant.py (+ generator.py DEFAULT_PRIMITIVE) — do not edit. -/",
+           "namespace Utv.Gen.JsonTables", ""]
+    try:
+        tree = ast.parse((repo / src_file).read_text())
+    except Exception:
+        tree = ast.parse("")
+    env = {}
+    for node in tree.body:
+        if isinstance(node, ast.Assign) and len(node.targets) == 1 and isinstance(node.targets[0], ast.Name):
+            env[node.targets[0].id] = node.value
+
+    def text(e) -> str:
+        if isinstance(e, ast.Constant) and isinstance(e.value, str):
+            return e.value
+        if isinstance(e, ast.Constant):
+            raise Untranslatable(f"{src_file}:{e.lineno} non-string literal")
+        return ast.unparse(e)
+
+    def pairs(d, depth=0):
+        if isinstance(d, ast.Name) and d.id in env and depth < 4:
+            return pairs(env[d.id], depth + 1)
+        if not isinstance(d, ast.Dict):
+            raise Untranslatable(f"{src_file}:{getattr(d, 'lineno', '?')} not a dict literal")
+        ps = []
+        for k, v in zip(d.keys, d.values):
+            if k is None:
+                ps += pairs(v, depth + 1)
+            else:
+                ps.append((text(k), text(v)))
+        return ps
+
+    def strs(e):
+        if not isinstance(e, (ast.Tuple, ast.List)) or not all(isinstance(x, ast.Constant) and isinstance(x.value, str) for x in e.elts):
+            raise Untranslatable(f"{src_file}:{getattr(e, 'lineno', '?')} not a tuple of string literals")
+        return [x.value for x in e.elts]
+
+    def emit(name, ty, f):
+        try:
+            if name not in env:
+                raise Untranslatable(f"{src_file} {name} (not found)")
+            out.append(f"def {name} : {ty} := {f(env[name])}")
+        except Untranslatable as e:
+            notes.append(f"untranslatable {e} (table {name})")
+            out.append(f"def {name} : {ty} := []   -- untranslatable")
+
+    emit("PRIMITIVES", "List String", lambda e: lean_str_list(strs(e)))
+    for nm in ("PRIMITIVE_MAP", "TYPE_MAP", "OPERATOR_NAMES", "FORMAT_MAP", "DEFAULT_CONSTRAINTS_MAP", "CONSTRAINTS_MAP",
+               "FORMAT_PATTERNS"):
+        emit(nm, "List (String × String)", lambda e: lean_pairs(pairs(e)))
+
+    def tcm(e):
+        if not isinstance(e, ast.Dict) or any(k is None for k in e.keys):
+            raise Untranslatable(f"{src_file} TYPE_CONSTRAINTS_MAP shape")
+        return "[" + ",\n  ".join(f"({lean_str_list(strs(k))}, {lean_pairs(pairs(v))})" for k, v in zip(e.keys, e.values)) + "]"
+    emit("TYPE_CONSTRAINTS_MAP", "List (List String × List (String × String))", tcm)
+    # generator.py: class attribute DEFAULT_PRIMITIVE of JsonSchemaGenerator
+    try:
+        g = ast.parse((repo / "utype/specs/json_schema/generator.py").read_text())
+        v = find_assign(g, "DEFAULT_PRIMITIVE", "JsonSchemaGenerator")
+        if not (isinstance(v, ast.Constant) and isinstance(v.value, str)):
+            raise Untranslatable("utype/specs/json_schema/generator.py JsonSchemaGenerator.DEFAULT_PRIMITIVE")
+        out.append(f"def DEFAULT_PRIMITIVE : String := {json.dumps(v.value)}")
+    except (Untranslatable, OSError, SyntaxError) as e:
+        notes.append(f"untranslatable {e} (DEFAULT_PRIMITIVE)")
+        out.append('def DEFAULT_PRIMITIVE : String := ""   -- untranslatable')
+    out += ["", "end Utv.Gen.JsonTables", ""]
+    return "\n".join(out)
+
+
+def gen_codec_tables(repo: Path, notes: list) -> str:
+    """Gen/CodecTables.lean — the format lists of `TypeTransformer` (transform.py; `DateFormat.X` resolved) and the
+    safe-number bounds of encode.py"""
+    out = ["/-! GENERATED by tools/extract.py from utype/utils/transform.py (DATE_FORMATS, DATETIME_FORMATS) and "
+           "utype/utils/encode.py (MAX/MIN_SAFE_NUMBER) — do not edit. -/", "namespace Utv.Gen.CodecTables", ""]
+    src_file = "utype/utils/transform.py"
+    try:
+        tr = ast.parse((repo / src_file).read_text())
+    except Exception:
+        tr = ast.parse("")
+
+    def fmt(e):
+        if isinstance(e, ast.Constant) and isinstance(e.value, str):
+            return e.value
+        if isinstance(e, ast.Attribute) and isinstance(e.value, ast.Name):
+            v = find_assign(tr, e.attr, e.value.id)
+            if isinstance(v, ast.Constant) and isinstance(v.value, str):
+                return v.value
+        raise Untranslatable(f"{src_file}:{getattr(e, 'lineno', '?')} format entry {ast.unparse(e)}")
+
+    for nm in ("DATE_FORMATS", "DATETIME_FORMATS"):
+        try:
+            v = find_assign(tr, nm, "TypeTransformer")
+            if not isinstance(v, (ast.List, ast.Tuple)):
+                raise Untranslatable(f"{src_file} TypeTransformer.{nm}")
+            out.append(f"def {nm} : List String := {lean_str_list([fmt(x) for x in v.elts])}")
+        except Untranslatable as e:
+            notes.append(f"untranslatable {e} (table {nm})")
+            out.append(f"def {nm} : List String := []   -- untranslatable")
+    try:
+        en = ast.parse((repo / "utype/utils/encode.py").read_text())
+    except Exception:
+        en = ast.parse("")
+    for nm in ("MAX_SAFE_NUMBER", "MIN_SAFE_NUMBER"):
+        v = find_assign(en, nm)
+        try:
+            val = ast.literal_eval(v) if v is not None else None
+        except Exception:
+            val = None
+        if isinstance(val, int) and not isinstance(val, bool):
+            out.append(f"def {nm} : Int := {val}")
+        else:
+            notes.append(f"untranslatable utype/utils/encode.py {nm}")
+            out.append(f"def {nm} : Int := 0   -- untranslatable")
+    out += ["", "end Utv.Gen.CodecTables", ""]
+    return "\n".join(out)
+
+
+def gen_encode(repo: Path, notes: list, gate_ok: bool) -> str:
+    """Gen/Encode.lean: `js_unsafe` of utils/encode.py (the module constants it compares with are inlined)"""
+    src = "utype/utils/encode.py"
+    consts = {}
+    try:
+        tree = ast.parse((repo / src).read_text())
+        for nm in ("MAX_SAFE_NUMBER", "MIN_SAFE_NUMBER"):
+            v = find_assign(tree, nm)
+            val = ast.literal_eval(v) if v is not None else None
+            if isinstance(val, int) and not isinstance(val, bool):
+                consts[nm] = val
+    except Exception:
+        pass
+    return gen_group(
+        repo, notes, src_file=src, cls_name=None, ns="Encode", title="utype/utils/encode.py (js_unsafe)",
+        funcs=[{"py": "js_unsafe", "find": _find_module_func(repo, src, "js_unsafe"), "has_self": False, "arity": 1,
+                "consts": consts}], gate_ok=gate_ok)
+
+
+def gen_field(repo: Path, notes: list, gate_ok: bool) -> str:
+    return gen_group(
+        repo, notes, src_file="utype/parser/field.py", cls_name="ParserField", ns="Field",
+        title="utype/parser/field.py (class ParserField: the predicates a parse asks of a field)",
+        funcs=[{"py": f} for f in FIELD_FUNCS], externals={"copy_value"}, gate_ok=gate_ok)
+
+
 def main():
     ap = argparse.ArgumentParser()
     ap.add_argument("--repo", default="/repo")
@@ -615,6 +1449,13 @@ def main():
     files["Constraints.lean"] = gen_constraints(repo, notes)
     files["Functional.lean"] = gen_functional(repo, notes)
     files["tables.json"] = json.dumps(js, indent=1, sort_keys=True)
+    unprov_ok = check_unprovided(repo, notes)
+    files["Field.lean"] = gen_field(repo, notes, unprov_ok)
+    files["Options.lean"] = gen_options(repo, notes, unprov_ok)
+    files["Registry.lean"] = gen_registry(repo, notes, unprov_ok)
+    files["Encode.lean"] = gen_encode(repo, notes, unprov_ok)
+    files["JsonTables.lean"] = gen_json_tables(repo, notes)
+    files["CodecTables.lean"] = gen_codec_tables(repo, notes)
     files["NOTES.txt"] = "\n".join(notes) + ("\n" if notes else "")
     for name, txt in files.items():
         p = outd / name
